@@ -74,6 +74,11 @@ def queries():
                                "memset.0:%d" % max(2 * L - 10, 2), "memcpy.0:%d" % max(2 * L - 10, 2)],
                     tier="quick" if L <= 17 else "thorough", timeout=240 if L <= 17 else 900,
                     desc="br_ecdsa_asn1_to_raw == reference reader (documented leniency) for every %d-byte input; output halves; buffer contract < 2L" % L))
+    # 1a'. read safety on an exact-size object (seeded change C05g: the second INTEGER header is read without a bounds test)
+    for L in (1, 2, 3, 5, 6, 7, 8, 9, 10, 12, 16):
+        qs.append(Q("atr-exact-L%02d" % L, "C11_atr_exact.c", units=["src/ec/ecdsa_atr.c"], defs=["-DL=%d" % L], unwind=2 * L + 70,
+                    tier="quick" if L <= 10 else "thorough", timeout=240,
+                    desc="br_ecdsa_asn1_to_raw on an object of exactly %d bytes: no access beyond sig_len for every rejected input and every accepted input whose raw form fits" % L))
     # deviations outside the documented leniency (negative / empty INTEGER)
     qs.append(Q("atr-strict-indef-L130", "C11_atr.c", units=["src/ec/ecdsa_atr.c"],
                 defs=["-DL=130", "-DFIXFROM=2"], unwind=263, tier="thorough", timeout=900,
